@@ -493,6 +493,9 @@ where
                 return Err(Error::CommitNotFound(*commit).into());
             }
 
+            // Records were collected newest first; return them
+            // in log order so they can be applied again to revert
+            records.reverse();
             (records, tree)
         };
 
